@@ -339,6 +339,25 @@ def rule_R14_for_ref_pattern(text, log):
         out = out[:mm.start()] + new + out[mm.end():]
 
 
+def rule_R15_or_pattern_ref_mut(text, log):
+    """W(A(ref mut x) | B(ref mut x)) => { BODY }   ->   W(A(ref mut x)) => { BODY } W(B(ref mut x)) => { BODY }
+    (an or-pattern is by definition the same arm taken for either alternative)"""
+    out = text
+    rx = re.compile(r'([A-Za-z_][\w:]*)\(\s*([\w:]+\(\s*ref\s+mut\s+\w+\s*\))\s*\|\s*([\w:]+\(\s*ref\s+mut\s+\w+\s*\))\s*,?\s*\)\s*=>\s*\{')
+    while True:
+        mask = code_mask(out)
+        mm = next((m for m in rx.finditer(out) if mask[m.start()]), None)
+        if not mm:
+            return out
+        ob = mm.end() - 1
+        cb = match_brace(out, mask, ob)
+        body = out[ob:cb + 1]
+        w, a, b = mm.group(1), mm.group(2), mm.group(3)
+        new = '%s(%s) => %s %s(%s) => %s' % (w, a, body, w, b, norm_ws(body))
+        log.append(('R15', norm_ws(out[mm.start():ob]), '%s(%s) => {..} %s(%s) => {..}' % (w, a, w, b)))
+        out = out[:mm.start()] + new + out[cb + 1:]
+
+
 def rule_R10_inspect_err(text, log):
     """E.inspect_err(|_| { B })  ->  { let vx_r = E; if vx_r.is_err() { B } vx_r }
     (definition of Result::inspect_err for a closure that ignores its argument);
@@ -407,7 +426,7 @@ class Unit(object):
         self.clauses = []           # dict(fn, section, label, props, text)
         self.items = []             # extracted non-fn items
         self.cells = {}             # type -> [fields]
-        self.rules = set(['R1', 'R2', 'ATTR', 'R4', 'R5', 'R6', 'R10', 'R11', 'R14'])
+        self.rules = set(['R1', 'R2', 'ATTR', 'R4', 'R5', 'R6', 'R10', 'R11', 'R14', 'R15'])
         self.unit_props = []
         self.lemmas = []
         self.tmpl_fns = []          # hand-written exec/proof fns in template (name, props)
@@ -462,6 +481,8 @@ class Unit(object):
                 text = rule_R11_drain(text, log)
             if 'R14' in self.rules:
                 text = rule_R14_for_ref_pattern(text, log)
+            if 'R15' in self.rules:
+                text = rule_R15_or_pattern_ref_mut(text, log)
         for r in log:
             self.rule_log.append({'rule': r[0], 'before': r[1], 'after': r[2], 'where': ctx})
         return text
